@@ -229,6 +229,7 @@ type poolCfg struct {
 	HealthMs    int  `json:"health_period_ms"`
 	Compression int  `json:"compression,omitempty"`
 	CloseErr    bool `json:"conn_close_reports_error,omitempty"` // net.Conn.Close tears the connection down but returns an error
+	MinConns    int  `json:"min_conns,omitempty"`
 }
 
 type poolTrace struct {
@@ -245,6 +246,7 @@ func runPoolOps(cfg poolCfg, ops []poolOp) (tr poolTrace) {
 			// connection-level settings in a slice with spare capacity, shared by every connection of the pool
 			Settings: append(make([]ch.Setting, 0, 8), ch.Setting{Key: "max_threads", Value: "1", Important: true})},
 		MaxConns:          int32(cfg.MaxConns),
+		MinConns:          int32(cfg.MinConns),
 		MaxConnLifetime:   time.Duration(cfg.LifeMs) * time.Millisecond,
 		MaxConnIdleTime:   time.Duration(cfg.IdleMs) * time.Millisecond,
 		HealthCheckPeriod: time.Duration(cfg.HealthMs) * time.Millisecond,
@@ -714,6 +716,29 @@ func runC11(c *Ctx) {
 		R.Case(fmt.Sprintf("close-error%d", i), true)
 		R.Count("sequence:directed")
 		c11Report(c, cfg, ops, tr)
+	}
+	// MinConns > 0 and the server unreachable for a while: the top-up dials fail; once the server is back the periodic health
+	// check must still be doing its job (idle connections past their idle time are destroyed)
+	{
+		ops := []poolOp{{Op: "acquire", W: 0}, {Op: "do", W: 0, Kind: "ok"}, {Op: "release", W: 0}, {Op: "dial-fail", Ms: 1}, {Op: "sleep", Ms: 160},
+			{Op: "dial-fail", Ms: 0}, {Op: "sleep", Ms: 50}, {Op: "acquire", W: 1}, {Op: "acquire", W: 2}, {Op: "do", W: 1, Kind: "ok"}, {Op: "do", W: 2, Kind: "ok"},
+			{Op: "release", W: 1}, {Op: "release", W: 2}, {Op: "sleep", Ms: 250}, {Op: "close"}}
+		cfg := poolCfg{MaxConns: 3, MinConns: 1, LifeMs: 60000, IdleMs: 60, HealthMs: 15}
+		tr := runPoolOpsIsolated(cfg, ops)
+		R.Case("min-conns-outage", true)
+		R.Count("sequence:timed")
+		for _, pr := range tr.problems {
+			R.Violate(Violation{Kind: "oracle", Key: "pool-problem", What: pr, Case: map[string]any{"config": cfg, "ops": ops, "events": tr.events}})
+		}
+		ok := false
+		for _, e := range tr.events {
+			if strings.HasPrefix(e, "sleep 250 -> total=0") || strings.HasPrefix(e, "sleep 250 -> total=1") {
+				ok = true
+			}
+		}
+		if !ok && tr.panicked == "" {
+			R.Violate(Violation{Kind: "oracle", Key: "idle-connection-not-destroyed", What: "after a period in which the MinConns top-up could not dial, two connections idle for 250 ms (MaxConnIdleTime 60 ms, health check every 15 ms, MinConns 1) were not destroyed: " + strings.Join(tr.events, "; "), Case: map[string]any{"config": cfg, "ops": ops, "events": tr.events}})
+		}
 	}
 	// idle time alone (lifetime far away), health checks more frequent than the idle time
 	{
